@@ -15,6 +15,16 @@ def seeded(U, rnd, quick):
             if rnd.random() < 0.15: s = re.sub(r"\d", lambda m: m.group(0) * rnd.choice([1, 1, 21]), s, count=1)
             texts.add(s)
         jobs.append({"k": "matrix", "eco": "rpm", "tag": "seeded", "texts": sorted(texts), "part": []})
+    # epochs compare numerically at every magnitude the parser takes (a 32-bit field would fold 2^32 onto 0)
+    import random
+    ernd = random.Random("epochs|%d|%s" % (len(jobs), jobs[0]["texts"][0]))       # own stream
+    EPOCHS = ["0", "00", "1", "01", "2", "9", "10", "65536", "2147483647", "2147483648", "4294967295", "4294967296", "4294967297",
+              "4294967298", "8589934592", "9223372036854775806", "9223372036854775807"]
+    for r in range(1 if quick else 6):
+        vs = ["1.0", "1.0-1", "2", "1.0~rc1"] if r == 0 else ernd.sample(sorted(jobs[ernd.randrange(len(jobs))]["texts"]), 4)
+        vs = [v.split(":", 1)[-1] for v in vs]
+        texts = set(vs) | {e + ":" + v for e in EPOCHS for v in vs}
+        jobs.append({"k": "matrix", "eco": "rpm", "tag": "seeded-epochs", "texts": sorted(texts), "part": []})
     return jobs
 
 def check(run):
